@@ -27,6 +27,12 @@ func TestC02(t *testing.T) {
 			return exempt
 		},
 		classify: func(id string, p *proggen.Prog, e *proggen.Expect) {
+			for _, td := range p.AllTypes() {
+				if len(td.Constructors) >= 4 {
+					ev.Class(id, "program with a type naming 4-5 constructors")
+					break
+				}
+			}
 			p.Walk(func(si proggen.SiteInfo) {
 				for _, evn := range si.Site.Events() {
 					if evn.Cat != "CTOR" {
